@@ -5,6 +5,7 @@ use serde_json::Value;
 pub mod c01;
 pub mod c02;
 pub mod c03;
+pub mod c04;
 pub mod c05;
 pub mod c07;
 pub mod c07_sched;
@@ -33,6 +34,7 @@ pub fn run(id: &str, ctx: &Ctx) -> bool {
         "C01" => c01::run(ctx),
         "C02" => c02::run(ctx),
         "C03" => c03::run(ctx),
+        "C04" => c04::run(ctx),
         "C05" => c05::run(ctx),
         "C07" => c07::run(ctx),
         "C08" => c08::run(ctx),
@@ -55,6 +57,7 @@ pub fn replay(id: &str, ctx: &Ctx, case: &Value) -> Option<()> {
         "C01" => c01::check_case(ctx, case),
         "C02" => c02::check_case(ctx, case),
         "C03" => c03::check_case(ctx, case),
+        "C04" => c04::check_case(ctx, case),
         "C05" => c05::check_case(ctx, case),
         "C07" => c07::check_case(ctx, case),
         "C08" => c08::check_case(ctx, case),
